@@ -206,6 +206,58 @@ fn fnv(seed: u64, key: &str) -> u64 {
 
 static PANICS: std::sync::Mutex<Vec<String>> = std::sync::Mutex::new(Vec::new());
 
+/// the credit of the session: uploads that end their stream with the last DATA frame (END_STREAM on data) on tunnels that stay
+/// open for their download. The endpoint's connection window is 65535; seven tunnels upload 13107 octets each in turn: every
+/// destination receives its upload - the connection-level credit of forwarded octets is returned whatever the stream's state
+async fn run_uploads(core: &'static Core) -> Result<Vec<String>, String> {
+    let to = Duration::from_secs(10);
+    let (client, server) = tokio::io::duplex(1 << 16);
+    let tunnel = tokio::spawn(async move { let _ = serve_tunnel(core, VProto::Http2, server, peer_addr(), "localhost".into(), None).await; });
+    let (mut send, conn) = tokio::time::timeout(to, h2::client::Builder::new().handshake::<_, Bytes>(client)).await.map_err(|_| "h2 handshake")?.map_err(|e| e.to_string())?;
+    let conn_task = tokio::spawn(async move { let _ = conn.await; });
+    let mut problems = vec![];
+    let mut keep = vec![];
+    for i in 0..7usize {
+        let listener = TcpListener::bind("127.0.0.1:0").await.map_err(|e| e.to_string())?;
+        let target = format!("127.0.0.1:{}", listener.local_addr().unwrap().port());
+        let r = http::Request::builder().method("CONNECT").uri(target.as_str()).body(()).unwrap();
+        send = tokio::time::timeout(to, send.ready()).await.map_err(|_| "h2 not ready")?.map_err(|e| e.to_string())?;
+        let (resp, mut stream) = send.send_request(r, false).map_err(|e| e.to_string())?;
+        let resp = tokio::time::timeout(to, resp).await.map_err(|_| format!("CONNECT of tunnel {} not answered", i + 1))?.map_err(|e| e.to_string())?;
+        if resp.status() != 200 { return Err(format!("CONNECT of tunnel {} answered {}", i + 1, resp.status())); }
+        let (mut peer, _) = tokio::time::timeout(to, listener.accept()).await.map_err(|_| "destination saw no connection")?.map_err(|e| e.to_string())?;
+        let n = 13107usize;
+        let data: Vec<u8> = (0..n).map(|k| code(k, salt_of(i))).collect();
+        // one DATA frame, END_STREAM on it (the window of a fresh stream takes it whole if the session has credit)
+        stream.reserve_capacity(n);
+        let mut sent = 0;
+        let t0 = tokio::time::Instant::now();
+        while sent < n && t0.elapsed() < Duration::from_secs(3) {
+            match tokio::time::timeout(Duration::from_millis(300), std::future::poll_fn(|cx| stream.poll_capacity(cx))).await {
+                Ok(Some(Ok(cap))) if cap > 0 => { let k = cap.min(n - sent); let _ = stream.send_data(Bytes::copy_from_slice(&data[sent..sent + k]), sent + k == n); sent += k; }
+                _ => {}
+            }
+        }
+        let mut got = vec![0u8; n];
+        let mut have = 0;
+        let t1 = tokio::time::Instant::now();
+        while have < n && t1.elapsed() < Duration::from_secs(3) {
+            match tokio::time::timeout(Duration::from_millis(300), peer.read(&mut got[have..])).await { Ok(Ok(0)) => break, Ok(Ok(k)) => have += k, _ => {} }
+        }
+        if have != n || got[..have] != data[..have] {
+            problems.push(format!("tunnel {}: the destination received {} of the {} uploaded octets ({} left the client: the session ran out of credit)", i + 1, have, n, sent));
+            break;
+        }
+        // the tunnel stays open for its download: the destination and the client's stream are kept
+        keep.push((peer, stream, resp));
+    }
+    drop(keep);
+    drop(send);
+    conn_task.abort();
+    tunnel.abort();
+    Ok(problems)
+}
+
 fn main() {
     std::panic::set_hook(Box::new(|info| {
         let mut g = PANICS.lock().unwrap_or_else(|e| e.into_inner());
@@ -298,6 +350,22 @@ fn main() {
     let panics = PANICS.lock().unwrap_or_else(|e| e.into_inner());
     if !panics.is_empty() {
         rep.violation_with("stream-credit:h2:panic", format!("{} panic(s) while serving HTTP/2 tunnels", panics.len()), || json!({"panics": panics.clone()}));
+    }
+    // ---- the session's credit across tunnels whose upload ended with END_STREAM on data
+    {
+        let core: &'static Core = Box::leak(Box::new(make_core(&CoreOpts { allow_private: true, h2_connection_window: Some(65535), ..Default::default() })));
+        let desc = json!({"proto": "h2", "kind": "session-credit", "endpoint_connection_window": 65535, "tunnels": 7, "upload_each": 13107, "end_stream": "on the last DATA frame", "tunnels_stay_open": true});
+        let d2 = desc.clone();
+        watchdog::enter(move || ("stream-credit:h2:hang".into(), "session-credit scenario did not finish".into(), d2));
+        let r = catch(|| rt.block_on(run_uploads(core))).unwrap_or_else(|p| Err(format!("panic: {}", p)));
+        watchdog::leave();
+        rep.eval();
+        rep.nontrivial("session-credit");
+        match r {
+            Err(e) => rep.violation_with("stream-credit:h2:session-credit:setup", e, || desc.clone()),
+            Ok(p) if p.is_empty() => rep.count("session_credit_runs", 1),
+            Ok(p) => rep.violation_with("stream-credit:h2:session-credit", p.join("; "), || json!({"scenario": desc, "problems": p})),
+        }
     }
     rep.finish(&out_path);
 }
